@@ -1,6 +1,6 @@
 #!/bin/bash
 # usage: run_seed.sh <seedID> <check ids...>
 S=$1; shift
-git -C /repo apply /verif/seeded/$S/patch.diff || { echo "patch failed"; exit 2; }
+git -C "${VERIF_REPO:-/repo}" apply /verif/seeded/$S/patch.diff || { echo "patch failed"; exit 2; }
 for c in "$@"; do (cd /verif && ./check $c quick 2>&1 | grep "signature:\|^\[\|MACHINERY" | head -4 | cut -c1-230); done
-git -C /repo checkout -- .
+git -C "${VERIF_REPO:-/repo}" checkout -- .
